@@ -49,7 +49,9 @@ func (g *gen) c01check(w *world, parties []*party, where string) {
 		// while re-keying, one side completes the new exchange one message before the other: the
 		// owner then still reports the old session but has derived the new one already
 		pendingO, pendingX := otr3.VerifSnapshot(owner.c).AkeSSID, otr3.VerifSnapshot(x.c).AkeSSID
-		if sx != so && !(owner.c.IsEncrypted() && (bytes.Equal(pendingO, sx[:]) || bytes.Equal(pendingX, so[:]))) {
+		// (an owner that has meanwhile ended the session or seen the peer end it has derived - and signed
+		// for - this session all the same)
+		if sx != so && !(owner.c.IsEncrypted() && (bytes.Equal(pendingO, sx[:]) || bytes.Equal(pendingX, so[:]))) && !(!owner.c.IsEncrypted() && owner.ssids[string(sx[:])]) {
 			olog.viol("C01", "peer-key-owner-not-in-this-exchange", fmt.Sprintf("%s: %s is encrypted and reports the key of %s, but %s derived a different session (ssid %x vs %x)", where, x.id, owner.id, owner.id, sx, so))
 		}
 		if owner.c.IsEncrypted() && sx == so {
@@ -514,6 +516,50 @@ func (g *gen) secondSessionScenario(w *world) {
 	g.c01probe(w, n.a, n.b)
 }
 
+
+// the end of one session interleaved with the key exchange for the next: the peer ends the session, but
+// its disconnect message is overtaken by its query and the exchange that follows, and arrives when
+// the victim has already sent its Reveal Signature message
+func (g *gen) delayedDisconnectScenario(w *world) {
+	version := 2 + g.r.Intn(2)
+	n := g.newAkeNet(w, version)
+	n.run(nil)
+	if !n.a.c.IsEncrypted() || !n.b.c.IsEncrypted() || w.dead {
+		return
+	}
+	v, p := n.a, n.b
+	if g.r.Intn(2) == 0 {
+		v, p = n.b, n.a
+	}
+	w.tick(3600)
+	disconnect, _ := w.end(p)
+	q := w.query(p)
+	fwd := func(to *party, ms []otr3.ValidMessage) (out []otr3.ValidMessage) {
+		for _, m := range ms {
+			_, ts, _, _ := w.recv(to, m)
+			out = append(out, ts...)
+		}
+		return
+	}
+	commit := fwd(v, []otr3.ValidMessage{q})
+	dhkey := fwd(p, commit)
+	reveal := fwd(v, dhkey)
+	g.c01check(w, n.all, "while re-keying with a peer whose disconnect message is still on its way")
+	fwd(v, disconnect) // only now
+	sig := fwd(p, reveal)
+	fwd(v, sig)
+	g.dist["ake:delayed-disconnect"]++
+	where := "after a key exchange that overlapped the end of the previous session"
+	g.c01check(w, n.all, where)
+	olog.ok("C01")
+	if v.c.IsEncrypted() && p.c.IsEncrypted() {
+		if v.c.GetSSID() != p.c.GetSSID() {
+			olog.viol("C01", "ssid-differs", fmt.Sprintf("OTRv%d: %s both sides are encrypted but report session ids %x and %x", version, where, v.c.GetSSID(), p.c.GetSSID()))
+		}
+		g.c01probe(w, v, p)
+	}
+}
+
 // E holds key 2 and runs two honest library instances, e1 facing A and e2 facing B; besides relaying
 // inside its own sessions it tries to splice messages of one exchange into the other.
 func (g *gen) mitmScenario(w *world, version int) {
@@ -603,6 +649,10 @@ func init() {
 			}
 			if i%12 == 1 {
 				g.secondSessionScenario(w)
+				continue
+			}
+			if i%12 == 7 {
+				g.delayedDisconnectScenario(w)
 				continue
 			}
 			if rec := g.akeScenario(w, recorded); rec != nil && len(rec) >= 4 {
